@@ -21,9 +21,19 @@ def enc(x) -> dict:
     return {"t": type(x).__name__, "v": str(x)}
 
 
-def mkfunc(params: list, ret: str):
+def mkfunc(params: list, ret: str, decor: dict | None = None):
+    decor = decor or {"po": "", "va": "", "vk": ""}
     parts, star = [], False
+    if decor["po"]:
+        parts += [decor["po"], "/"]
+    if decor["va"] and not any(p["kind"] == "ko" for p in params):
+        params = list(params) + [None]          # place *args after the positional-or-keyword parameters
     for p in params:
+        if p is None or (p["kind"] == "ko" and not star):
+            parts.append("*" + decor["va"])
+            star = True
+            if p is None:
+                continue
         if p["kind"] == "ko" and not star:
             parts.append("*")
             star = True
@@ -33,9 +43,11 @@ def mkfunc(params: list, ret: str):
         if p["dflt"]["t"] != "none":
             s += f" = {val(p['dflt'])!r}"
         parts.append(s)
+    if decor["vk"]:
+        parts.append("**" + decor["vk"])
     src = f"def f({', '.join(parts)}){' -> ' + ret if ret else ''}:\n    return 0\n"
     ns: dict = {"__name__": "c19_synth"}
-    exec(src, ns)
+    exec(compile(src, "<c19_synth>", "exec", dont_inherit=True), ns)     # real annotation objects, not strings
     return ns["f"]
 
 
@@ -69,7 +81,7 @@ def build(b: JobBuilder) -> tuple[dict, object]:
 
 
 def run_bind(c: dict) -> dict:
-    fresh = TaskBuilder.from_callable(mkfunc(c["params"], c["ret"]))
+    fresh = TaskBuilder.from_callable(mkfunc(c["params"], c["ret"], c.get("decor")))
     before = dump_task(fresh)
     args = [val(a) for a in c["args"]]
     kw = {k: val(v) for k, v in c["kw"]}
@@ -86,7 +98,7 @@ def run_bind(c: dict) -> dict:
 
 def run_edge(c: dict) -> dict:
     b0 = (JobBuilder().with_node("t1", TaskBuilder.from_callable(mkfunc([], c["ret"])))
-          .with_node("t2", TaskBuilder.from_callable(mkfunc(c["params"], ""))))
+          .with_node("t2", TaskBuilder.from_callable(mkfunc(c["params"], "", c.get("decor")))))
     first_before, j0 = build(b0)
     b = b0
     for e in c["edges"]:
@@ -139,7 +151,8 @@ def run(ctx):
                 f"({consts['NVals']} values out of 1 / 'kv' / 'v'), in one with_values call or split in "
                 f"two; !Edge1: producer t1 (return annotation absent/int/str/bool/object) x consumer t2 (one parameter annotated "
                 f"absent/int/str/bool/object, or <= {consts['MaxP']} parameters annotated absent/int/str; no defaults) x one edge with source task/output, sink task, sink parameter existing or dangling, keyword or "
-                f"positional; !Edge2: two edges (consumer <= {consts['MaxP2']} parameters); all enumerated by TLC; non-trivial = "
+                f"positional; !Edge3/!Bind3: callables that additionally have a positional-only parameter, *args (named "
+                "'args' or like the dangling edge name) and/or **kwargs, with keyword edges named like those; !Edge2: two edges (consumer <= {consts['MaxP2']} parameters); all enumerated by TLC; non-trivial = "
                 "binds a value or has an edge; TLC evaluates Builder!Post on every (case, dumps of the builders' results)",
         "clauses": ["build_raised_on_dangling_sink_task", "build_raised_on_other_dangling_edge", "build_raised_on_unannotated_source",
                     "build_raised_on_well_formed_job", "build_raised_single_task", "with_values_raised", "accepted_ill_formed_job",
